@@ -21,6 +21,11 @@ def parseParent (n : Nat) (par : String) : Option (Option Nat) :=
 def parseQuota (n : Nat) (w : String) : Option QCfg :=
   match w.splitOn "," with
   | ["f"] => some ⟨.fixed, 0, 0, none, .any⟩
+  | ["g"] => some ⟨.fixed, 0, 0, none, .any⟩     -- fixed window with `group_by_header` (see `groupedOf`)
+  | ["g", par] => do
+    let p ← parseParent n par
+    if p.isNone then none
+    pure ⟨.fixed, 0, 0, p, .any⟩
   | ["f", par] => do
     let p ← parseParent n par
     if p.isNone then none
@@ -52,6 +57,12 @@ def parseOrder (w : String) (n : Nat) : Option (List Nat) :=
   let parts := w.splitOn ","
   let ids := parts.filterMap String.toNat?
   if ids.length == parts.length && ids.all (· < n) && decide ids.Nodup then some ids else none
+
+/-- `q<i>=g[,<parent>]`: the fixed-window quota is grouped by the request header `x-c02` -/
+def groupedOf (ws : List String) (q : Nat) : Bool :=
+  match kv ws s!"q{q}" with
+  | some w => w.startsWith "g"
+  | none => false
 
 def parseCfg (ws : List String) : Option Cfg := do
   let t0 ← kvNat ws "t0"
@@ -138,6 +149,13 @@ def runStep (st : RunSt) (line : String) : RunSt × String :=
     | some m, some w, some r =>
       if 1 ≤ m && m ≤ 16 && 2 ≤ w && w ≤ 64 && 1 ≤ r && r ≤ 100000 then (st, "ok") else (st, "bad-op")
     | _, _, _ => (st, "bad-op")
+  | "stress-queue" :: ws =>
+    -- a Queue processor in front of the quota (no model of the queue here): with nothing in flight every set is empty
+    -- (`admitted_holds_slot` / `quiescent_sets_empty`: only transactions in flight hold slots) and newcomers get through
+    match kvNat ws "max", kvNat ws "waiters", kvNat ws "ttl" with
+    | some m, some w, some t =>
+      if 1 ≤ m && m ≤ 8 && 1 ≤ w && w ≤ 16 && 1 ≤ t && t ≤ 10 then (st, "ok") else (st, "bad-op")
+    | _, _, _ => (st, "bad-op")
   | "stress-realclock" :: ws =>
     -- a full engine on the production clock; the statements behind it: `gc_removes_only_expired` (a collector pass leaves
     -- every member whose expiry has not passed) and `released_by_gc_after_expiry`
@@ -152,12 +170,12 @@ def runStep (st : RunSt) (line : String) : RunSt × String :=
     | _, _, _ => (st, "bad-op")
   | "cfg" :: ws =>
     match st.cfg, parseCfg ws with
-    | none, some cfg => ({ cfg := some cfg, s := S.init cfg, x := Mixed.MS.init cfg }, "ok")
+    | none, some cfg => ({ cfg := some cfg, s := S.init cfg, x := Mixed.MS.init cfg (groupedOf ws) }, "ok")
     | _, _ => (st, "bad-op")
   | "reload" :: ws =>
     -- the whole configuration again (the same or a changed one): a new engine, started at the current instant
     match st.cfg, (if (kv ws "t0").isSome then none else parseCfg (s!"t0={st.x.s.now}" :: ws)) with
-    | some _, some cfg => ({ cfg := some cfg, s := S.init cfg, x := Mixed.MS.init cfg }, "ok")
+    | some _, some cfg => ({ cfg := some cfg, s := S.init cfg, x := Mixed.MS.init cfg (groupedOf ws) }, "ok")
     | _, _ => (st, "bad-op")
   | ws =>
     match st.cfg, parseEvent ws with
@@ -214,6 +232,8 @@ def judgeStep (s : JudgeSt) (op out : String) : JudgeSt :=
     if out == "ok" then s else { s with verdict := some ("fail - concurrent-Inc-Dec-of-one-request-id:" ++ pctEnc out) }
   | "stress-arrive" :: _ =>
     if out == "ok" then s else { s with verdict := some ("fail - simultaneous-arrivals-exceed-max:" ++ pctEnc out) }
+  | "stress-queue" :: _ =>
+    if out == "ok" then s else { s with verdict := some ("fail - queue-in-front-of-the-quota-slot-held-with-nothing-in-flight-or-starved:" ++ pctEnc out) }
   | "stress-realclock" :: _ =>
     if out == "ok" then s else { s with verdict := some ("fail - production-clock-collector-freed-a-live-slot-or-kept-an-expired-one:" ++ pctEnc out) }
   | "stress-churn" :: _ =>
